@@ -32,6 +32,12 @@ func Parse(rawURL string) (u *URL, err error) {
 		return nil, err
 	}
 
+	if uu.String() == "" {
+		// A URL like "#" or "//" has an empty text form, which neither Parse
+		// nor [URL.UnmarshalText] accept.
+		return nil, ErrEmpty
+	}
+
 	return &URL{
 		URL: *uu,
 	}, nil
